@@ -28,6 +28,9 @@ type c07cfg struct {
 	clients  []c07client
 	rollout  bool
 	inflight bool // a request is being served (for 900ms) when the sequence starts
+	// overlap: a request that never finishes is in flight, and the second command of the sequence is issued by another
+	// operator 300ms after the first one started (its drain, with twice the drain timeout, overlaps the first one's)
+	overlap bool
 }
 
 func (c c07cfg) String() string {
@@ -35,7 +38,7 @@ func (c c07cfg) String() string {
 	for _, x := range c.clients {
 		cl = append(cl, fmt.Sprintf("%s@%v", x.kind, x.offset))
 	}
-	return fmt.Sprintf("seq=%s gap=%v clients=[%s] rollout=%v inflight=%v", c.seq, c.gap, strings.Join(cl, ","), c.rollout, c.inflight)
+	return fmt.Sprintf("seq=%s gap=%v clients=[%s] rollout=%v inflight=%v overlap=%v", c.seq, c.gap, strings.Join(cl, ","), c.rollout, c.inflight, c.overlap)
 }
 
 const (
@@ -95,6 +98,15 @@ func c07Configs(tier string) []c07cfg {
 			cfgs = append(cfgs, c07cfg{seq: s, gap: gap, clients: sets[1], rollout: true})
 		}
 	}
+	// two drains of the same targets overlapping
+	ov := []string{"PpR", "PSR", "SpR"}
+	if tier != "quick" {
+		ov = append(ov, "PPR", "SSR", "pPR", "PpS", "SPR", "PpD")
+	}
+	for _, s := range ov {
+		// the third command follows 100ms after the drains ended: no health probe falls in between
+		cfgs = append(cfgs, c07cfg{seq: s, gap: 100 * time.Millisecond, clients: []c07client{{"get", 600 * time.Millisecond}, {"get", 2250 * time.Millisecond}}, overlap: true})
+	}
 	return cfgs
 }
 
@@ -134,30 +146,59 @@ func c07Scenario(c c07cfg) *Scenario {
 			})
 			time.Sleep(100 * time.Millisecond)
 		}
+		if c.overlap {
+			wg.Add(1)
+			vsched.GoTagged("client", func() {
+				defer wg.Done()
+				w.Do(ReqSpec{ID: "inflight", Host: host, Path: "/", Plan: "hang"})
+			})
+			time.Sleep(100 * time.Millisecond)
+		}
+		cmdList = make([]*CmdObs, len(c.seq))
+		run := func(i int, ch rune, drain time.Duration) {
+			var o *CmdObs
+			switch ch {
+			case 'P':
+				o = w.Pause("s1", drain, c07Long)
+			case 'p':
+				o = w.Pause("s1", drain, c07Short)
+			case 'R':
+				o = w.Resume("s1")
+			case 'S':
+				o = w.Stop("s1", drain, fmt.Sprintf("msg-%d <b>", i))
+			case 'D':
+				a := deployArgs("s1", []string{fmt.Sprintf("t%d:80", i+1)}, []string{host}, nil)
+				a.DrainTimeout = drain
+				o = w.Deploy(a)
+			}
+			w.mu.Lock()
+			cmdList[i] = o
+			w.mu.Unlock()
+		}
 		w.S.SetWindow(true)
 		wg.Add(1)
 		vsched.GoTagged("cmd", func() {
 			defer wg.Done()
+			var second vsync.WaitGroup
 			for i, ch := range c.seq {
+				if c.overlap && i == 1 {
+					continue
+				}
 				if i > 0 && c.gap > 0 {
 					time.Sleep(c.gap)
 				}
-				var o *CmdObs
-				switch ch {
-				case 'P':
-					o = w.Pause("s1", vD, c07Long)
-				case 'p':
-					o = w.Pause("s1", vD, c07Short)
-				case 'R':
-					o = w.Resume("s1")
-				case 'S':
-					o = w.Stop("s1", vD, fmt.Sprintf("msg-%d <b>", i))
-				case 'D':
-					o = w.Deploy(deployArgs("s1", []string{fmt.Sprintf("t%d:80", i+1)}, []string{host}, nil))
+				if c.overlap && i == 0 {
+					second.Add(1)
+					vsched.GoTagged("cmd", func() {
+						defer second.Done()
+						time.Sleep(300 * time.Millisecond)
+						run(1, rune(c.seq[1]), 2*vD)
+					})
 				}
-				w.mu.Lock()
-				cmdList = append(cmdList, o)
-				w.mu.Unlock()
+				run(i, ch, vD)
+				if c.overlap && i == 0 {
+					second.Wait()
+				}
 			}
 		})
 		for k, cl := range c.clients {
@@ -190,6 +231,11 @@ func c07Scenario(c c07cfg) *Scenario {
 		}
 		if len(vs) > 0 || len(cmdList) != len(c.seq) {
 			return vs
+		}
+		for _, o := range cmdList {
+			if o == nil {
+				return vs
+			}
 		}
 		// gate model
 		states := []gateState{{kind: "running", targets: "t0:80"}}
@@ -347,6 +393,16 @@ func c07Scenario(c c07cfg) *Scenario {
 			case obs == "503-plain":
 				sig = "refused-without-stop-message via " + lastSites(r.Sites, 2)
 				_ = anyStop
+				// refused while no command was draining the targets (nothing explains a draining target then)
+				duringDrain := false
+				for x, cm := range cmdList {
+					if strings.ContainsRune("PpSD", rune(c.seq[x])) && cm.StartSeq < r.EndSeq && r.EndSeq < cm.EndSeq {
+						duringDrain = true
+					}
+				}
+				if !duringDrain {
+					sig = "refused-without-stop-message while-no-command-is-draining via " + lastSites(r.Sites, 2)
+				}
 				// without stalls the gate closes at the virtual instant the command starts: a request
 				// arriving at a later instant cannot have passed it legitimately
 				if !stalled {
@@ -390,7 +446,7 @@ func checkC07(t *testing.T, job *Job, res *Result) {
 		scs = append(scs, sc)
 	}
 	b := Bounds{D: 2, S: 2, Total: 2}
-	res.Rule = "configurations = command sequences over {pause(3.15s), pause(1.05s), resume, stop(msg), redeploy} (length<=2 quick, <=3 thorough) x client sets {ordinary GET, GET and POST on the health path} arriving at offsets between the commands; per configuration every schedule within the bounds; oracle: each request must be explained by SOME arrival point of a sequential gate model (DESIGN.md C07), exact virtual times without stalls"
+	res.Rule = "configurations = command sequences over {pause(3.15s), pause(1.05s), resume, stop(msg), redeploy} (length<=2 quick, <=3 thorough) x client sets {ordinary GET, GET and POST on the health path} arriving at offsets between the commands, plus sequences whose second command is issued by another operator while the first one is still draining a request that never finishes; per configuration every schedule within the bounds; oracle: each request must be explained by SOME arrival point of a sequential gate model (DESIGN.md C07), exact virtual times without stalls"
 	runS(t, job, res, "C07", scs, b, 8000)
 	if tier == "quick" {
 		res.Bounds = "every configuration with <=1 deviation (thread, select order or stall); every 5th configuration with <=2"
